@@ -48,13 +48,15 @@ var positions = []pos{
 	{"funccall_name_attr", `<button onclick={ templ.JSFuncCall(fnName(v), 1) }>x</button>`, []string{"fn"}, nil},
 }
 
-func templSource() string {
-	var sb strings.Builder
-	sb.WriteString("package main\n\nscript c03scr(v any) {\n\tsink(v);\n}\n\nscript c03scr3(a any, b string, c any) {\n\tsink(a, b, c);\n}\n\n")
+// templFiles prints the corpus package: the shared script templates plus one
+// file per position, so that a template the parser mis-reads cannot swallow the
+// others.
+func templFiles() map[string]string {
+	fs := map[string]string{"scripts.templ": "package main\n\nscript c03scr(v any) {\n\tsink(v);\n}\n\nscript c03scr3(a any, b string, c any) {\n\tsink(a, b, c);\n}\n"}
 	for _, p := range positions {
-		sb.WriteString("templ P_" + p.Name + "(v any) {\n\t" + p.Body + "\n}\n\n")
+		fs["p_"+p.Name+".templ"] = "package main\n\ntempl P_" + p.Name + "(v any) {\n\t" + p.Body + "\n}\n"
 	}
-	return sb.String()
+	return fs
 }
 
 const helperSrc = `package main
@@ -63,7 +65,7 @@ func fnName(v any) string { s, _ := v.(string); return s }
 `
 
 // driver: JSONL {"i":n,"v":Spec[,"k":position]} -> {"i":n,"o":[base64 per position],"e":[per-position error or ""]}.
-func driverSrc() string {
+func driverSrc(available map[string]bool) string {
 	var sb strings.Builder
 	sb.WriteString(`package main
 
@@ -84,7 +86,11 @@ var registry = []struct {
 }{
 `)
 	for _, p := range positions {
-		sb.WriteString("\t{\"" + p.Name + "\", P_" + p.Name + "},\n")
+		if available[p.Name] {
+			sb.WriteString("\t{\"" + p.Name + "\", P_" + p.Name + "},\n")
+		} else {
+			sb.WriteString("\t{\"" + p.Name + "\", nil},\n")
+		}
 	}
 	sb.WriteString(`}
 
@@ -121,7 +127,9 @@ func main() {
 				}
 				buf.Reset()
 				msg := ""
-				if e := r.f(j.V.Go()).Render(context.Background(), &buf); e != nil {
+				if r.f == nil {
+					msg = "position not compiled"
+				} else if e := r.f(j.V.Go()).Render(context.Background(), &buf); e != nil {
 					msg = e.Error()
 				}
 				o.O, o.E = append(o.O, base64.StdEncoding.EncodeToString(buf.Bytes())), append(o.E, msg)
